@@ -105,6 +105,42 @@ def run_cases(spec, workdir, *, prop, judge, gen_kw=None, choose_cfgs=default_cf
             shutil.rmtree(wd, ignore_errors=True)
         if k < 2 and spec.get("shard", 0) == 0:
             res["samples"].append({"recipe": recipe, "configs": cfgs})
+    if spec.get("sweep_of"):
+        # bounded-exhaustive part: this shard's slice of the enumerated discrete parameters of single operations
+        res["counters"].setdefault("param_sweep_cases", 0)
+        sweep_seed = (spec["seed"] // 1000003) * 64 + spec.get("shard", 0) // spec["sweep_of"]
+        for recipe, np_vals, label in gen.param_sweep(sweep_seed, spec.get("shard", 0) % spec["sweep_of"], spec["sweep_of"]):
+            res["counters"]["param_sweep_cases"] += 1
+            res["counters"]["recipes"] += 1
+            for o in gen.recipe_ops(recipe):
+                bump(res["hist"]["ops"], o)
+            for cfg in (CONFIGS[0], CONFIGS[1]):
+                wd = os.path.join(workdir, "sweep")
+                kw = dict(run_kw or {})
+                if per_run is not None:
+                    kw.update(per_run(recipe, cfg))
+                rec = runner.run_recipe(recipe, cfg, wd, monitors=monitors, **kw)
+                res["counters"]["runs"] += 1
+                res["evaluations"] += 1
+                bump(res["hist"]["config"], "sweep:" + cfg_name(cfg))
+                if rec["phase"] == "skipped":
+                    shutil.rmtree(wd, ignore_errors=True)
+                    continue
+                if rec["exc"] is not None:
+                    res["counters"]["raised"] += 1
+                    bump(res["hist"]["exceptions"], f"{rec['phase']}:{rec['exc']['type']}")
+                else:
+                    res["counters"]["completed"] += 1
+                viols = judge(recipe, np_vals, cfg, rec, res, wd) or []
+                for v in viols:
+                    v.setdefault("property", prop)
+                    v.setdefault("case", {"recipe": recipe, "cfg": cfg})
+                res["violations"].extend(viols)
+                if rec["exc"] is None:
+                    res["nontrivial"].append(gen.rhash([recipe, cfg]))
+                for k_ in ("_vals", "_outs", "_plan"):
+                    rec.pop(k_, None)
+                shutil.rmtree(wd, ignore_errors=True)
     return res
 
 
